@@ -3,13 +3,15 @@
 From Ergo Require Import Common.Base App.Seq App.Cases App.Model App.SeqProofs App.Proofs.
 
 (* ApplicationStop / ApplicationStopForce report success only in states where every member process
-   has left the node and the group - every guarded schedule of concurrent deaths, stops, starts *)
+   has left the node and the group - every guarded schedule of concurrent deaths, stops, starts, member
+   deaths and stop calls during the spawn loop of start included (rbk: a failed start has just been
+   rolled back and a member it killed has not terminated yet, known finding rollback-busy of C17) *)
 Theorem C10_app_stop_waits n m threads sched i p s' :
   forallb initial_pc threads = true ->
   let c := run_adm sched (init_cfg n m threads) in
   nth_error (thr c) i = Some p -> returns_ok p = true ->
   step_pc (sh c) p = Some (s', Done 0) ->
-  na (sh c) = 0 /\ ng (sh c) = 0.
+  rbk (sh c) = false -> na (sh c) = 0 /\ ng (sh c) = 0.
 Proof. intros H. exact (stop_truthful n m threads sched H i p s'). Qed.
 Print Assumptions C10_app_stop_waits.
 
@@ -17,7 +19,7 @@ Print Assumptions C10_app_stop_waits.
 Theorem C10_app_loaded_no_member n m threads sched :
   forallb initial_pc threads = true ->
   let c := run_adm sched (init_cfg n m threads) in
-  st (sh c) = SL \/ st (sh c) = SUnl -> na (sh c) = 0 /\ ng (sh c) = 0.
+  st (sh c) = SL \/ st (sh c) = SUnl -> rbk (sh c) = false -> na (sh c) = 0 /\ ng (sh c) = 0.
 Proof. intros H. exact (loaded_clean n m threads sched H). Qed.
 Print Assumptions C10_app_loaded_no_member.
 
